@@ -17,18 +17,28 @@ the loop).
    datagram of `B` carries as DCID, and no short-header datagram of `B` starts (bytes 1..) with, a non-empty connection ID
    that the sessions of `A` ALONE ever hold (`EverHolds`: a function of `A`'s datagrams and the key log, not of the merged
    run). `quicSeparated_of_capture` derives the session-state condition `C04.QuicSeparated` from it by induction over the run;
-   `everHolds_sources` (section 4) bounds what a session can hold by what its own datagrams carry: DCID / SCID of the
-   long-header packets dissected from them and the CIDs of NEW_CONNECTION_ID frames in what it decrypted — nothing else (not
-   the routing DCID, not a Retry SCID as such). `quic_sessions_by_conn`, `quic_frames_by_conn`: for ANY number of mutually
+   `Lemmas.ExportDemuxCids.everHolds_sources` bounds what a session can hold by what its own datagrams carry: DCID / SCID of
+   the long-header Initial packets dissected from them and the CIDs of NEW_CONNECTION_ID frames in packets it could open —
+   nothing else (not the routing DCID, not a Retry SCID as such); hence `SeparatedByContent` (section 4: a condition on the
+   datagrams' content only) implies `CaptureSeparated` (`captureSeparated_of_content`, `export_demux_content`). `quic_sessions_by_conn`, `quic_frames_by_conn`: for ANY number of mutually
    separated connections (`lab` names the connection of a datagram), connection by connection.
    `export_demux`: the output is the TLS blocks in creation order, then the QUIC blocks in creation order, each block the
    block of the solo run.
-2. what is NOT separated, with kernel-checked whole-program witnesses: `Ex.prefix_cross_routing` (a CID of another
-   connection that a short-header datagram happens to start with — conformant random CIDs exclude it only with high
-   probability), zero-length CIDs on a shared 4-tuple (`C04.Ex.quic_cross_routing_by_tuple`), equal CIDs.
+2. what is NOT separated (each clause of `CaptureSeparated` is needed):
+   * `short`: a non-empty CID of connection A that a short-header datagram of B happens to START WITH (bytes 1..) — A's CID
+     need not be a CID of B, nor prefix-related to one; a 1-byte CID is hit by 1 foreign datagram in 256, an n-byte CID by
+     2^(-8n). Whole-program witness, kernel-evaluated through the full pipeline: `Ex.prefix_cross_routing`
+     (`ExportDemuxEx.lean`; the datagram `OK` of the connection is lost), replayed on the REAL tool with real cryptography:
+     harness/export_demux_replay.py. Loop-level: `C04.Ex.quic_cross_routing_by_prefix`, `C04.Ex.quic_route_counterexample`.
+   * `long`: equal CIDs in two connections (the DCID of B's long header is a CID A holds).
+   * `tuples`: the same 4-tuple (a reused client port; two captures merged): `C04.Ex.quic_cross_routing_by_tuple` — and with
+     it every ZERO-LENGTH CID: an empty CID identifies nothing (`C04.empty_dcid_falls_to_tuple`,
+     `C04.empty_cid_never_chosen`), such datagrams are routed by the 4-tuple alone, so two connections with zero-length CIDs
+     are separated iff their 4-tuples differ.
 3. files: `export_demux_file` (the capture file holding only the packet blocks of one connection, any container).
 -/
 import TLX.Lemmas.ExportDemux
+import TLX.Lemmas.ExportDemuxCids
 import TLX.Props.ExportInputs2
 set_option linter.unusedSimpArgs false
 set_option linter.unusedVariables false
@@ -313,5 +323,46 @@ theorem export_demux_encoded (args : Args) (kl : Option Keylog.Str) (v : Variant
 end Encoder
 
 end Files
+
+section Content
+open TLX.Lemmas.ExportDemuxCids
+
+/-! ## 4. separation by what the datagrams carry -/
+
+/-- **separation of two sets of datagrams by their CONTENT**: different 4-tuples, and every non-empty connection ID that a
+    datagram of `A` names (DCID / SCID of a long-header Initial packet in it) or issues (NEW_CONNECTION_ID in a packet of it
+    that a session can open) — `TaughtBy` — is neither the DCID of a long-header datagram of `B` nor what a short-header
+    datagram of `B` starts with (bytes 1..). No session state of the merged run, and none of `A`'s run either, is mentioned. -/
+structure SeparatedByContent (A B : List (QIn Keylog.Key)) : Prop where
+  tuples : ∀ a ∈ A, ∀ b ∈ B, sameFlow a.p b.p = false
+  long : ∀ b ∈ B, ∀ d v, b.h = .long d v → d ≠ [] → ∀ a ∈ A, ¬ TaughtBy mask H P info a d
+  short : ∀ b ∈ B, b.h = .short → ∀ c, c ≠ [] → ∀ a ∈ A, TaughtBy mask H P info a c → ¬ c <+: b.p.payload.drop 1
+
+/-- … implies the separation in terms of what `A`'s sessions hold (`everHolds_sources`: they hold nothing else) -/
+theorem captureSeparated_of_content (o : Opts) {A B : List (QIn Keylog.Key)}
+    (h : SeparatedByContent mask H P info A B) : CaptureSeparated (quicMachine mask H P info) o A B := by
+  refine ⟨h.tuples, ?_, ?_⟩
+  · intro b hb d v hd hne hev
+    obtain ⟨a, ha, ht⟩ := everHolds_sources mask H P info o A d hev
+    exact h.long b hb d v hd hne a ha ht
+  · intro b hb hsh c hne hev
+    obtain ⟨a, ha, ht⟩ := everHolds_sources mask H P info o A c hev
+    exact h.short b hb hsh c hne a ha ht
+
+/-- `export_demux` with the hypothesis on the content of the datagrams: connections named by `lab`, each separated by
+    content from all the others -/
+theorem export_demux_content (prior : Prior) (args : Args) (o : Opts) (ho : optsOf args = some o)
+    (fk : Option (List Keylog.Key)) (C : List (Item Keylog.Key)) (lab : Pkt → Nat)
+    (hsep : ∀ j, SeparatedByContent mask H P info
+      (cls (fun x : QIn Keylog.Key => lab x.p) j (quicView o (fk.getD []) C))
+      (rest (fun x : QIn Keylog.Key => lab x.p) j (quicView o (fk.getD []) C))) :
+    framesFrom mask H P prior args fk C info = .ok (
+      ((flowHeads o (tcpView o C)).flatMap fun q => tlsFrames H P info o fk (only (sameFlow q) C)).flatten ++
+      (quicFrames mask H P info o fk C).flatten) ∧
+    ∀ k, Merge (quicFrames mask H P info o fk (only (fun p => lab p == k) C))
+      (quicFrames mask H P info o fk (only (fun p => !(lab p == k)) C)) (quicFrames mask H P info o fk C) := by
+  have := export_demux mask H P info prior args o ho fk C lab (fun j => captureSeparated_of_content mask H P info o (hsep j))
+  exact ⟨this.1, this.2.1⟩
+end Content
 
 end TLX.Props.ExportDemux
